@@ -63,6 +63,21 @@ Proof.
   destruct (flex_order_sound _ _ _ _ _ _ F w en) as [-> ->]. eapply unwrapped_sound; eauto.
 Qed.
 
+(* reordering / x - n => x + (-n) maps checked operations to checked operations *)
+Lemma unwrapped_chk m op e1 e2 op' a b : unwrapped op e1 e2 = (op', a, b) -> chk m op' = chk m op.
+Proof.
+  unfold unwrapped. intros H. destruct op; try (injection H as <- <- <-; reflexivity).
+  destruct e2; try (injection H as <- <- <-; reflexivity).
+  destruct (wrap32 z =? MIN); injection H as <- <- <-; destruct m; reflexivity.
+Qed.
+Lemma flex_unwrapped_chk m op e1 e2 op' a b : flex_unwrapped op e1 e2 = (op', a, b) -> chk m op' = chk m op.
+Proof.
+  unfold flex_unwrapped, flex_order. destruct (unwrapped op e1 e2) as [[op1 a1] b1] eqn:U.
+  rewrite <- (unwrapped_chk m _ _ _ _ _ _ U). intros H.
+  destruct op1; repeat match type of H with context [if ?c then _ else _] => destruct c end;
+    rewrite (unwrapped_chk m _ _ _ _ _ _ H); destruct m; reflexivity.
+Qed.
+
 (* the operands of the reordered statement are the operands of the original one, or a fresh literal *)
 Lemma unwrapped_operands op e1 e2 op' a b : unwrapped op e1 e2 = (op', a, b) ->
   a = e1 /\ (b = e2 \/ exists z, b = EInt z).
@@ -118,11 +133,11 @@ Proof. intros _. apply wrap32_idem. Qed.
 Lemma merge_sound op iop c1 c2 mop mc x vi v :
   merge_binop op iop c1 c2 = Some (mop, mc) ->
   in32 x -> in32 c1 -> in32 c2 ->
-  rt_binop iop x c1 = Val vi -> ovf iop x c1 = false ->
-  rt_binop op (wrap32 vi) c2 = Val v ->
-  in32 mc /\ rt_binop mop x mc = Val v.
+  rt_binop iop x c1 = Val vi -> chk Add iop && ovf iop x c1 = false ->
+  rt_binop op (wrap32 vi) c2 = Val v -> chk Add op && ovf op (wrap32 vi) c2 = false ->
+  in32 mc /\ rt_binop mop x mc = Val v /\ chk Add mop && ovf mop x mc = false.
 Proof.
-  intros Hm Hx Hc1 Hc2 Hi Ho Hv.
+  intros Hm Hx Hc1 Hc2 Hi Ho Hv Hov.
   destruct (is_cmp op) eqn:Ec.
   - (* comparison: inner must be PLUS *)
     assert (iop = PLUS) as ->.
@@ -134,14 +149,18 @@ Proof.
     { intros o p q Ho'. destruct o; cbn in Ho'; try discriminate; cbn; eauto. }
     assert (Ecm : is_cmp mop = true).
     { destruct op; cbn in Ec; try discriminate; cbn in Hm; destruct (in32b (c2 - c1)); inversion Hm; subst; reflexivity. }
-    destruct (T mop x mc Ecm) as [r Hr]. rewrite Hr, Hv in Hcmp. now subst.
+    destruct (T mop x mc Ecm) as [r Hr]. rewrite Hr, Hv in Hcmp. split; [now subst|].
+    destruct mop; cbn in Ecm; try discriminate; reflexivity.
   - assert (Hw : wrap32 vi = vi).
     { destruct op; cbn in Ec; try discriminate; destruct iop; cbn in Hm; try discriminate;
         cbn in Hi; injection Hi as <-; apply wrap32_idem. }
-    rewrite Hw in Hv. rewrite (merge_arith_ok op iop x c1 c2 mop mc Ec Hm vi Hi) in Hv. split; [|assumption].
+    rewrite Hw in Hv, Hov. rewrite (merge_arith_ok op iop x c1 c2 mop mc Ec Hm vi Hi) in Hv.
     destruct op; cbn in Ec; try discriminate; destruct iop; cbn in Hm; try discriminate.
-    + injection Hm as <- <-. apply wrap32_in.
-    + destruct (in32b (c1 + c2)) eqn:E; [|discriminate]. injection Hm as <- <-. now apply in32b_spec.
+    + injection Hm as <- <-. split; [apply wrap32_in|]. split; [assumption | reflexivity].
+    + cbn in Hi. injection Hi as <-. cbn in Ho, Hov. apply negb_false_iff in Ho, Hov. apply in32b_spec in Ho, Hov.
+      rewrite (wrap32_id _ Ho) in Hov.
+      destruct (merge_plus_no_new_overflow x c1 c2 mop mc Hm Ho Hov) as (-> & Hmc & Hxc & _).
+      split; [assumption|]. split; [assumption|]. cbn. apply negb_false_iff. now apply in32b_spec.
 Qed.
 
 (* ---- the if-else that materialises a condition ---- *)
